@@ -986,7 +986,7 @@ init_cpu_blob_attr(kdump_ctx_t *ctx, unsigned cpu,
 		attr = new_attr(ctx->dict, dir, tmpl);
 	if (!attr) {
 		internal_blob_decref(val.blob);
-		return set_error(ctx, status,
+		return set_error(ctx, KDUMP_ERR_SYSTEM,
 				 "Attribute allocation failed");
 	}
 
